@@ -19,6 +19,10 @@ type connStatus struct {
 	*sync.RWMutex
 	cond    *sync.Cond
 	current connStatusValue
+	// epoch counts the transitions into connStatusReconnecting. A stream remembers the epoch of the wire
+	// connection it is bound to; a different epoch means that connection has been lost meanwhile, even if
+	// the status is already back to connStatusConnected.
+	epoch uint64
 }
 
 func newConnState() *connStatus {
@@ -65,8 +69,23 @@ func (e *connStatus) CompareAndSwapNot(old, new connStatusValue) (swapped bool) 
 	return true
 }
 
+// Epoch returns the number of transitions into connStatusReconnecting so far.
+func (e *connStatus) Epoch() uint64 {
+	e.RLock()
+	defer e.RUnlock()
+	return e.epoch
+}
+
+// EpochWithoutLock is Epoch for callers that hold the lock.
+func (e *connStatus) EpochWithoutLock() uint64 {
+	return e.epoch
+}
+
 func (e *connStatus) SwapWithoutLock(state connStatusValue) (old connStatusValue) {
 	old = e.current
+	if state == connStatusReconnecting && old != connStatusReconnecting {
+		e.epoch++
+	}
 	e.current = state
 	e.cond.Broadcast()
 	return
